@@ -9,7 +9,7 @@ forms) x 3 policies x {argument, petl.config.failonerror}.  Oracle: a small
 policy model."""
 import itertools
 
-from sim.canon import Log, canon_row, canon_rows
+from sim.canon import Log, canon_row, canon_rows, canon_cell
 from sim.core import outcome, draw_config
 from sim.loader import load_petl
 
@@ -69,6 +69,11 @@ def _cell(code):
         return [code]
     if k == 'str':
         return 'c%d' % code
+    if k == 'exc':
+        # a cell that holds an exception object (left by an earlier step
+        # that ran with failonerror='inline', or simply stored as data): a
+        # value like any other, the converter is called with it
+        return LookupError(code)
     if k == 'dup':
         # the same text in every row of a field: which cell fails cannot be
         # told from its value (the converter is given the row)
@@ -77,6 +82,8 @@ def _cell(code):
 
 
 def _code(v):
+    if isinstance(v, BaseException):
+        return v.args[0]
     if isinstance(v, (tuple, list)):
         return v[0]
     if isinstance(v, str):
@@ -268,7 +275,8 @@ def _gen_case(rng, tier, g):
     nmax = 3 if form in TWO_FIELD else 6
     n = rng.randint(0, nmax)
     # (falsy error values are values like any other)
-    ev = rng.choice(['none', 'ERR', 'obj', 'none', 'zero', 'empty', 'false'])
+    ev = rng.choice(['none', 'ERR', 'obj', 'none', 'zero', 'empty', 'false',
+                     'class', 'func'])
     where = [rng.random() < 0.6 for _ in range(n)]
     # natural-failure forms: which cells are of the failing kind is part of
     # the table (enumerated inside the case as well)
@@ -283,7 +291,7 @@ def _gen_case(rng, tier, g):
             'cellkind': 'dup' if (form == 'convertpassrow'
                                   and rng.random() < 0.5)
             else rng.choice(['int', 'int', 'tuple2', 'tuple3', 'list',
-                             'str']) if form not in NATURAL
+                             'str', 'exc']) if form not in NATURAL
             else 'int',
             'extra_col': rng.random() < 0.5 and form != 'convertnumbers',
             'flaky': rng.random() < 0.2,
@@ -302,8 +310,12 @@ def _gen_case(rng, tier, g):
 
 _EV_OBJ = ('sentinel-errorvalue',)
 _TRANSLATE = {1: 'one', 21: 'twenty-one', 41: 'forty-one'}
+class _Marker(object):
+    """An error value that happens to be callable (a marker class)."""
+
+
 _EVS = {'none': None, 'ERR': 'ERR', 'obj': _EV_OBJ, 'zero': 0, 'empty': '',
-        'false': False}
+        'false': False, 'class': _Marker, 'func': str}
 
 
 def _table(case, natural_fail=None):
@@ -648,7 +660,8 @@ class _Mismatch(Exception):
 def _match_cell(got, want, fl, ev):
     if _RETURN_EXC[0] and isinstance(want, tuple) and len(want) == 2 \
             and want[0] == 'ok':
-        return type(got) is Returned and got.args == want
+        return type(got) is Returned and (
+            got.args == want or canon_cell(got.args) == canon_cell(want))
     if isinstance(want, tuple) and want and want[0] == 'EXC':
         if not isinstance(got, (Injected,) + INJECTED):
             return False
@@ -657,9 +670,14 @@ def _match_cell(got, want, fl, ev):
     if isinstance(want, tuple) and want and want[0] == 'NAT':
         return isinstance(got, Exception)
     if want == ('EV',):
-        return got is ev if ev is _EV_OBJ else got == ev and \
-            type(got) is type(ev)
-    return type(got) is type(want) and got == want
+        if ev is _EV_OBJ or callable(ev):
+            return got is ev
+        return got == ev and type(got) is type(ev)
+    if type(got) is not type(want):
+        return False
+    # (cells may hold exception objects as data: two of them with the same
+    # class and arguments are the same value here)
+    return got == want or canon_cell(got) == canon_cell(want)
 
 
 def _compare(rows, want, fl, ev, what):
